@@ -574,6 +574,11 @@ impl Scenario for Parallel {
             _ => {}
         }
         w["sched"] = super::swarm_policy_edges(&mut sw, 120, 900);
+        // These helpers are short (about 900 instrumented edges per run) and their races live in windows of one or two
+        // edges: most runs get many pre-emptions close together rather than one somewhere.
+        let mut dense = Rng::stream(seed, 91);
+        w["sched"]["preempt_more_permille"] = json!(*dense.pick(&[0u32, 600, 900, 950, 950, 970]));
+        w["sched"]["preempt_max_gap"] = json!(*dense.pick(&[900u64, 300, 110, 110, 40, 40]));
         w
     }
     fn execute(&self, w: &Value, ctx: &ExecCtx) -> Report {
